@@ -4,7 +4,7 @@
    stability, lag bound) holds of the bytes the geometry-faithful iovec hands out. *)
 From Coq Require Import List NArith Bool Arith Lia.
 From WP Require Import hcobs.Stuffing hcobs.EncChunks hcobs.EncChunksProofs hcobs.Dec hcobs.EncSink hcobs.SinkSim.
-From WP Require Import iovec.Geo iovec.GeoMem iovec.GeoProofs iovec.GeoRefine iovec.GeoHistory iovec.GeoSink hcobs.GeoEnc.
+From WP Require Import iovec.Geo iovec.GeoMem iovec.GeoProofs iovec.GeoRefine iovec.GeoHistory iovec.GeoSink iovec.GeoWorld hcobs.GeoEnc hcobs.GeoEncInp.
 Import ListNotations.
 Open Scope nat_scope.
 
@@ -93,23 +93,62 @@ Lemma ER_push m e ge s bs c : ER m e ge s -> ER m {| maxc := maxc e; cur := c; m
                                                   (with_cur ge c) (s_push s bs).
 Proof. intros (A & B & C & D & E). unfold ER. cbn. repeat split; auto. Qed.
 
-Lemma sim_write m e ge s h g copy p off n e' s' ge' h' g' : GS m s h g -> ER m e ge s ->
-  enc_write e s (firstn n (skipn off p)) = Ok (e', s') -> length (firstn n (skipn off p)) = n ->
-  ge_write copy (SExt p) p ge h g off n = Some (ge', h', g') -> GS m s' h' g' /\ ER m e' ge' s'.
+Lemma GS_good m s h g : GS m s h g -> GInv h g /\ BInv g.
+Proof. intros (I & p & S & Rs & PI). split; [exact I|]. eapply BInv_of_pipe; eauto. Qed.
+
+(* OwningIovec::push of any in-bounds slice that overlaps no slice of the iovec *)
+Lemma geo_sink_push_sl m s h g sl h' g' : GS m s h g -> sl_ok h sl ->
+  (forall s0, In s0 (gslices g) -> sl_before s0 sl) ->
+  push h sl g = Some (h', g') -> GS m (s_push s (sl_bytes h sl)) h' g'.
 Proof.
-  intros G R E1 Hlen E2. unfold enc_write in E1. unfold ge_write in E2.
+  intros G Hok Hd E. unfold push in E.
+  match type of E with (if ?c then _ else _) = _ => destruct c end.
+  - eapply geo_sink_push_copy; eauto.
+  - destruct (push_borrowed sl g) as [gx|] eqn:EB; [|discriminate]. inversion E; subst h' gx.
+    destruct G as (I & p & S & Rs & PI).
+    destruct (push_borrowed_gen h g p sl g' I Rs Hok Hd EB) as (I' & merged & R').
+    split; [exact I'|]. exists (Pipe.push merged (sl_bytes h sl) p). split; [now apply sim_push|].
+    split; [exact R'|now apply PipeProofs2.push_inv].
+Qed.
+
+Lemma sub_ok h g inp p off n : InpOK h g inp p off -> 0 < n -> off + n <= length p ->
+  sl_ok h (sub inp off n) /\ (forall s0, In s0 (gslices g) -> sl_before s0 (sub inp off n)) /\
+  sl_bytes h (sub inp off n) = firstn n (skipn off p).
+Proof.
+  intros IO Hn Hle. destruct inp as [c o k|q].
+  - unfold sub. cbn [sl_skip sl_keep]. exact (InpOK_sub_ok h g c o k p off n IO Hn Hle).
+  - cbn [InpOK] in IO. subst q. rewrite sub_ext. cbn [sl_ok sl_bytes sl_before]. split; [|split; [|reflexivity]].
+    + intros Hnil. apply (f_equal (@length _)) in Hnil. rewrite firstn_length, skipn_length in Hnil. cbn [length] in Hnil. lia.
+    + intros [? ? ?|?] _; exact Logic.I.
+Qed.
+
+Lemma sim_write m e ge s h g copy inp p off n e' s' ge' h' g' : GS m s h g -> ER m e ge s -> InpOK h g inp p off ->
+  enc_write e s (firstn n (skipn off p)) = Ok (e', s') -> length (firstn n (skipn off p)) = n ->
+  ge_write copy inp p ge h g off n = Some (ge', h', g') ->
+  GS m s' h' g' /\ ER m e' ge' s' /\ InpOK h' g' inp p (off + n).
+Proof.
+  intros G R IO E1 Hlen E2. unfold enc_write in E1. unfold ge_write in E2. unfold byte in *.
   destruct n as [|n'].
-  - cbn [firstn] in E1. inversion E1; inversion E2; subst. auto.
+  - cbn [firstn] in E1. inversion E1; inversion E2; subst. rewrite Nat.add_0_r. auto.
   - set (n := S n') in *. destruct (firstn n (skipn off p)) as [|x t] eqn:EF; [cbn in Hlen; lia|]. rewrite <- EF in *.
     rewrite Hlen in E1.
-    assert (EP : exists h1 g1, (if copy then push_copy h (firstn n (skipn off p)) g else push h (sub (SExt p) off n) g) = Some (h1, g1)).
+    assert (Hle : off + n <= length p).
+    { rewrite firstn_length, skipn_length in Hlen. lia. }
+    assert (EP : exists h1 g1, (if copy then push_copy h (firstn n (skipn off p)) g else push h (sub inp off n) g) = Some (h1, g1)).
     { destruct (if copy then _ else _) as [[h1 g1]|]; [eauto|discriminate]. }
     destruct EP as (h1 & g1 & EP). rewrite EP in E2.
-    assert (G1 : GS m (s_push s (firstn n (skipn off p))) h1 g1).
-    { destruct copy; [eapply geo_sink_push_copy; eauto|]. rewrite sub_ext in EP. eapply geo_sink_push; eauto. }
-    destruct R as (A & B & C & D) eqn:ER0. rewrite <- A, <- B in E2.
+    destruct (GS_good _ _ _ _ G) as (I & B).
+    assert (G1 : GS m (s_push s (firstn n (skipn off p))) h1 g1 /\ InpOK h1 g1 inp p (off + n)).
+    { destruct copy.
+      - split; [eapply geo_sink_push_copy; eauto|].
+        apply (InpOK_advance _ _ _ _ off); [|lia]. eapply InpOK_effect; [|exact IO]. eapply effect_push_copy; eauto.
+      - destruct (sub_ok h g inp p off n IO ltac:(unfold n; lia) Hle) as (Hok & Hd & Hb). split.
+        + rewrite <- Hb. eapply geo_sink_push_sl; eauto.
+        + unfold sub in EP. eapply InpOK_push_sub; eauto. unfold n; lia. }
+    destruct G1 as (G1 & IO1).
+    destruct R as (A & B0 & C & D) eqn:ER0. rewrite <- A, <- B0 in E2.
     destruct (maxc e <? cur e + n); [discriminate|]. inversion E1; inversion E2; subst. split; [exact G1|].
-    rewrite B. apply ER_push. unfold ER. auto.
+    split; [|exact IO1]. rewrite B0. apply ER_push. unfold ER. auto.
 Qed.
 
 Lemma sim_partial m e ge s h g e' s' ge' h' g' : GS m s h g -> ER m e ge s ->
@@ -135,49 +174,45 @@ Proof.
   exact (sim_new_subsequent m s2 h2 g2 ms ge3 h3 g3 G2 E3).
 Qed.
 
-(* ---- consume_once ---- *)
-Lemma sim_consume_once m e ge s h g copy ms p off e' s' c ge' h' g' c' :
-  GS m s h g -> ER m e ge s ->
-  consume_once_s ms e s (skipn off p) = Ok (e', s', c) ->
-  ge_consume_once copy ms (SExt p) p ge h g off = Some (ge', h', g', c') ->
-  c = c' /\ exists m', GS m' s' h' g' /\ ER m' e' ge' s'.
+(* ---- the not yet consumed input is untouched by the copies and placeholder writes ---- *)
+Lemma inp_partial m s h g ge ge' h' g' inp p off : GS m s h g ->
+  ge_write_partial_stuff ge h g = Some (ge', h', g') -> InpOK h g inp p off -> InpOK h' g' inp p off.
 Proof.
-  intros G R E1 E2. unfold consume_once_s in E1. unfold ge_consume_once in E2.
-  destruct (skipn off p) as [|b0 y0] eqn:Ey; [discriminate|]. rewrite <- Ey in *.
+  intros G E IO. unfold ge_write_partial_stuff in E. destruct (push_copy h [FE] g) as [[h1 g1]|] eqn:EP; [|discriminate].
+  destruct (gmaxc ge <? gcur ge + 1); [discriminate|]. inversion E; subst.
+  destruct (GS_good _ _ _ _ G) as (I & B). eapply InpOK_effect; [|exact IO]. eapply effect_push_copy; eauto.
+Qed.
+Lemma inp_header m s h g n b h' g' inp p off : GS m s h g ->
+  ge_encode_header n h g (Some b) = Some (h', g') -> InpOK h g inp p off -> InpOK h' g' inp p off.
+Proof.
+  intros G E IO. unfold ge_encode_header in E.
+  destruct (RADIX * RADIX <=? n); [discriminate|].
+  match type of E with (if ?c then _ else _) = _ => destruct c; [discriminate|] end.
+  match type of E with (if ?c then _ else _) = _ => destruct c; [discriminate|] end.
+  destruct (GS_good _ _ _ _ G) as (I & B). eapply InpOK_backfill; eauto.
+Qed.
+Lemma inp_new_subsequent m s h g ms ge h' g' inp p off : GS m s h g ->
+  ge_new_subsequent h g ms = Some (ge, h', g') -> InpOK h g inp p off -> InpOK h' g' inp p off.
+Proof.
+  intros G E IO. unfold ge_new_subsequent in E.
+  destruct (register_patch h [0%N; 0%N] g) as [[[h1 g1] b]|] eqn:ER0; [|discriminate]. inversion E; subst.
+  destruct (GS_good _ _ _ _ G) as (I & B). eapply InpOK_effect; [|exact IO]. eapply effect_register; eauto.
+Qed.
+
+(* ---- consume_once ---- *)
+Lemma sim_consume_once m e ge s h g copy ms inp p off e' s' c ge' h' g' c' :
+  GS m s h g -> ER m e ge s -> InpOK h g inp p off ->
+  consume_once_s ms e s (skipn off p) = Ok (e', s', c) ->
+  ge_consume_once copy ms inp p ge h g off = Some (ge', h', g', c') ->
+  c = c' /\ exists m', GS m' s' h' g' /\ ER m' e' ge' s' /\ InpOK h' g' inp p (off + c).
+Proof.
+  intros G R IO E1 E2. unfold consume_once_s in E1. unfold ge_consume_once in E2. unfold byte in *.
+  destruct (skipn off p) as [|b0 y0] eqn:Ey; [discriminate|]. cbv beta iota in E1, E2. rewrite <- Ey in *.
   assert (R0 := R). destruct R0 as (HM & HC & HD & _). rewrite <- HM, <- HC, <- HD in E2.
   destruct (negb (cur e + (if mid e then 1 else 0) <? maxc e)); [discriminate|].
-  destruct (mid e && N.eqb b0 FD)%bool.
-  { (* the held-back FE completes a stuff sequence *)
-    destruct (encode_header (cur e) s e) as [s2|] eqn:EH; [|discriminate].
-    rewrite HC in E2.
-    destruct (ge_encode_header (gcur ge) h g (gbref ge)) as [[h2 g2]|] eqn:GH; [|discriminate].
-    destruct (ge_new_subsequent h2 g2 ms) as [[[ge3 h3] g3]|] eqn:GN; [|discriminate].
-    pose proof (sim_close m e ge s h g ms s2 h2 g2 ge3 h3 g3 G R EH GH GN) as H.
-    destruct (enc_new_subsequent s2 ms) as [e3 s3]. inversion E1; inversion E2; subst. split; [reflexivity|exact H]. }
-  destruct (negb (cur e <? maxc e)); [discriminate|].
-  (* the held-back FE is written first *)
-  assert (HW : exists e1 s1 ge1 h1 g1,
-    (if mid e then match enc_write_partial_stuff e s with
-                   | Panic => Panic
-                   | Ok (e1, s1) => if negb (cur e1 <? maxc e1) then Panic else Ok (e1, s1) end
-     else Ok (e, s)) = Ok (e1, s1) /\
-    (if mid e then match ge_write_partial_stuff ge h g with
-                   | None => None
-                   | Some (e1, h1, g1) => if negb (gcur e1 <? gmaxc e1) then None else Some (e1, h1, g1) end
-     else Some (ge, h, g)) = Some (ge1, h1, g1) /\ GS m s1 h1 g1 /\ ER m e1 ge1 s1).
-  { destruct (mid e).
-    - destruct (enc_write_partial_stuff e s) as [[e1 s1]|] eqn:EP; [|discriminate].
-      destruct (ge_write_partial_stuff ge h g) as [[[ge1 h1] g1]|] eqn:GP; [|discriminate].
-      destruct (sim_partial _ _ _ _ _ _ _ _ _ _ _ G R EP GP) as (G1 & R1).
-      assert (R10 := R1). destruct R10 as (A1 & B1 & _). rewrite <- A1, <- B1.
-      destruct (negb (cur e1 <? maxc e1)); [discriminate|]. exists e1, s1, ge1, h1, g1. auto.
-    - exists e, s, ge, h, g. auto. }
-  destruct HW as (e1 & s1 & ge1 & h1 & g1 & W1 & W2 & G1 & R1). rewrite W1 in E1. rewrite W2 in E2.
-  assert (R10 := R1). destruct R10 as (HM1 & HC1 & HD1 & _). rewrite <- HM1, <- HC1 in E2.
-  set (remaining := maxc e1 - cur e1) in *. set (window := firstn remaining (skipn off p)) in *.
-  destruct window as [|wb wt] eqn:EW; [discriminate|]. rewrite <- EW in *.
-  assert (Hclose : forall (e2 : enc) (s2 : sink) (ge2 : genc) (h2 : heap) (g2 : giov) k,
-    GS m s2 h2 g2 -> ER m e2 ge2 s2 ->
+  (* closing a chunk from any related state *)
+  assert (Hclose : forall (e2 : enc) (s2 : sink) (ge2 : genc) (h2 : heap) (g2 : giov) k off2,
+    GS m s2 h2 g2 -> ER m e2 ge2 s2 -> InpOK h2 g2 inp p off2 -> off2 <= off + k ->
     match encode_header (cur e2) s2 e2 with
     | Panic => Panic
     | Ok s3 => let '(e3, s4) := enc_new_subsequent s3 ms in Ok (e3, s4, k)
@@ -189,54 +224,88 @@ Proof.
                        | Some (e4, h4, g4) => Some (e4, h4, g4, k)
                        end
     end = Some (ge', h', g', c') ->
-    c = c' /\ exists m', GS m' s' h' g' /\ ER m' e' ge' s').
-  { intros e2 s2 ge2 h2 g2 k G2 R2 X1 X2.
+    c = c' /\ exists m', GS m' s' h' g' /\ ER m' e' ge' s' /\ InpOK h' g' inp p (off + c)).
+  { intros e2 s2 ge2 h2 g2 k off2 G2 R2 IO2 Hoff X1 X2.
     destruct (encode_header (cur e2) s2 e2) as [s3|] eqn:EH; [|discriminate].
     destruct (ge_encode_header (gcur ge2) h2 g2 (gbref ge2)) as [[h3 g3]|] eqn:GH; [|discriminate].
     destruct (ge_new_subsequent h3 g3 ms) as [[[ge4 h4] g4]|] eqn:GN; [|discriminate].
     pose proof (sim_close m e2 ge2 s2 h2 g2 ms s3 h3 g3 ge4 h4 g4 G2 R2 EH GH GN) as H.
-    destruct (enc_new_subsequent s3 ms) as [e3 s4]. inversion X1; inversion X2; subst. split; [reflexivity|exact H]. }
+    assert (Hc2 : cur e2 = gcur ge2) by (destruct R2 as (_ & B & _); exact B).
+    assert (G3 : GS m s3 h3 g3) by (rewrite <- Hc2 in GH; exact (sim_header _ _ _ _ _ _ _ _ _ _ G2 R2 EH GH)).
+    assert (IO3 : InpOK h3 g3 inp p off2).
+    { destruct R2 as (_ & _ & _ & _ & b & Eb & _). rewrite Eb in GH. exact (inp_header m s2 h2 g2 (gcur ge2) b h3 g3 inp p off2 G2 GH IO2). }
+    pose proof (inp_new_subsequent m s3 h3 g3 ms ge4 h4 g4 inp p off2 G3 GN IO3) as IO4.
+    destruct (enc_new_subsequent s3 ms) as [e3 s4]. inversion X1; inversion X2; subst. split; [reflexivity|].
+    destruct H as (m' & G' & R'). exists m'. split; [exact G'|]. split; [exact R'|].
+    eapply InpOK_advance; [exact IO4|exact Hoff]. }
+  destruct (mid e && N.eqb b0 FD)%bool.
+  { (* the held-back FE completes a stuff sequence *)
+    rewrite HC in E2. exact (Hclose e s ge h g 1 off G R IO ltac:(lia) E1 E2). }
+  destruct (negb (cur e <? maxc e)); [discriminate|].
+  (* the held-back FE is written first *)
+  assert (HW : exists e1 s1 ge1 h1 g1,
+    (if mid e then match enc_write_partial_stuff e s with
+                   | Panic => Panic
+                   | Ok (e1, s1) => if negb (cur e1 <? maxc e1) then Panic else Ok (e1, s1) end
+     else Ok (e, s)) = Ok (e1, s1) /\
+    (if mid e then match ge_write_partial_stuff ge h g with
+                   | None => None
+                   | Some (e1, h1, g1) => if negb (gcur e1 <? gmaxc e1) then None else Some (e1, h1, g1) end
+     else Some (ge, h, g)) = Some (ge1, h1, g1) /\ GS m s1 h1 g1 /\ ER m e1 ge1 s1 /\ InpOK h1 g1 inp p off).
+  { destruct (mid e).
+    - destruct (enc_write_partial_stuff e s) as [[e1 s1]|] eqn:EP; [|discriminate].
+      destruct (ge_write_partial_stuff ge h g) as [[[ge1 h1] g1]|] eqn:GP; [|discriminate].
+      destruct (sim_partial _ _ _ _ _ _ _ _ _ _ _ G R EP GP) as (G1 & R1).
+      pose proof (inp_partial m s h g ge ge1 h1 g1 inp p off G GP IO) as IO1.
+      assert (R10 := R1). destruct R10 as (A1 & B1 & _). rewrite <- A1, <- B1.
+      destruct (negb (cur e1 <? maxc e1)); [discriminate|]. exists e1, s1, ge1, h1, g1. auto.
+    - exists e, s, ge, h, g. auto. }
+  destruct HW as (e1 & s1 & ge1 & h1 & g1 & W1 & W2 & G1 & R1 & IO1). rewrite W1 in E1. rewrite W2 in E2.
+  assert (R10 := R1). destruct R10 as (HM1 & HC1 & HD1 & _). rewrite <- HM1, <- HC1 in E2.
+  set (remaining := maxc e1 - cur e1) in *. set (window := firstn remaining (skipn off p)) in *.
+  destruct window as [|wb wt] eqn:EW; [discriminate|]. rewrite <- EW in *.
   assert (LWin : length window <= remaining) by (unfold window; rewrite firstn_length; lia).
   assert (LWy : length window <= length (skipn off p)) by (unfold window; rewrite firstn_length; lia).
   destruct (find_stuff window) as [idx|] eqn:F.
-  - apply find_some_len in F as (F1 & F2).
+  - apply find_some_len in F as (F1 & F2). unfold byte in *.
     destruct (enc_write e1 s1 (firstn idx (skipn off p))) as [[e2 s2]|] eqn:EWr; [|discriminate].
-    destruct (ge_write copy (SExt p) p ge1 h1 g1 off idx) as [[[ge2 h2] g2]|] eqn:GWr; [|discriminate].
-    destruct (sim_write m e1 ge1 s1 h1 g1 copy p off idx e2 s2 ge2 h2 g2 G1 R1 EWr ltac:(rewrite firstn_length; lia) GWr) as (G2 & R2).
-    exact (Hclose e2 s2 ge2 h2 g2 (idx + 2) G2 R2 E1 E2).
+    destruct (ge_write copy inp p ge1 h1 g1 off idx) as [[[ge2 h2] g2]|] eqn:GWr; [|discriminate].
+    destruct (sim_write m e1 ge1 s1 h1 g1 copy inp p off idx e2 s2 ge2 h2 g2 G1 R1 IO1 EWr ltac:(rewrite firstn_length; lia) GWr) as (G2 & R2 & IO2).
+    exact (Hclose e2 s2 ge2 h2 g2 (idx + 2) (off + idx) G2 R2 IO2 ltac:(lia) E1 E2).
   - destruct (length window =? remaining) eqn:EL.
     + apply Nat.eqb_eq in EL.
       destruct (enc_write e1 s1 window) as [[e2 s2]|] eqn:EWr; [|discriminate].
-      destruct (ge_write copy (SExt p) p ge1 h1 g1 off remaining) as [[[ge2 h2] g2]|] eqn:GWr; [|discriminate].
-      destruct (sim_write m e1 ge1 s1 h1 g1 copy p off remaining e2 s2 ge2 h2 g2 G1 R1 EWr ltac:(fold window; lia) GWr) as (G2 & R2).
-      exact (Hclose e2 s2 ge2 h2 g2 remaining G2 R2 E1 E2).
+      destruct (ge_write copy inp p ge1 h1 g1 off remaining) as [[[ge2 h2] g2]|] eqn:GWr; [|discriminate].
+      destruct (sim_write m e1 ge1 s1 h1 g1 copy inp p off remaining e2 s2 ge2 h2 g2 G1 R1 IO1 EWr ltac:(fold window; lia) GWr) as (G2 & R2 & IO2).
+      exact (Hclose e2 s2 ge2 h2 g2 remaining (off + remaining) G2 R2 IO2 ltac:(lia) E1 E2).
     + rewrite ends_fe_fast_eq in E2.
       set (m' := ends_fe window) in *. set (tc := if m' then length window - 1 else length window) in *.
       assert (Rm : ER m (set_mid e1 m') (gset_mid ge1 m') s1).
       { destruct R1 as (A & B & C & D). unfold ER. cbn. auto. }
       destruct (enc_write (set_mid e1 m') s1 (firstn tc (skipn off p))) as [[e2 s2]|] eqn:EWr; [|discriminate].
-      destruct (ge_write copy (SExt p) p (gset_mid ge1 m') h1 g1 off tc) as [[[ge2 h2] g2]|] eqn:GWr; [|discriminate].
+      destruct (ge_write copy inp p (gset_mid ge1 m') h1 g1 off tc) as [[[ge2 h2] g2]|] eqn:GWr; [|discriminate].
       assert (Htc : length (firstn tc (skipn off p)) = tc).
       { rewrite firstn_length. unfold tc. destruct m'; lia. }
-      destruct (sim_write m _ _ s1 h1 g1 copy p off tc e2 s2 ge2 h2 g2 G1 Rm EWr Htc GWr) as (G2 & R2).
+      destruct (sim_write m _ _ s1 h1 g1 copy inp p off tc e2 s2 ge2 h2 g2 G1 Rm IO1 EWr Htc GWr) as (G2 & R2 & IO2).
       assert (R20 := R2). destruct R20 as (HM2 & HC2 & HD2 & _). rewrite <- HM2, <- HC2, <- HD2 in E2.
       destruct (negb (cur e2 + (if mid e2 then 1 else 0) <? maxc e2)); [discriminate|].
-      inversion E1; inversion E2; subst. split; [reflexivity|]. exists m. auto.
+      inversion E1; inversion E2; subst. split; [reflexivity|]. exists m. split; [exact G2|]. split; [exact R2|].
+      eapply InpOK_advance; [exact IO2|]. unfold tc. destruct m'; lia.
 Qed.
 
 (* ---- the encode loop, one piece, terminate ---- *)
-Lemma sim_loop copy ms p : forall fuel m e ge s h g off e' s' ge' h' g',
-  GS m s h g -> ER m e ge s ->
+Lemma sim_loop copy ms inp p : forall fuel m e ge s h g off e' s' ge' h' g',
+  GS m s h g -> ER m e ge s -> InpOK h g inp p off ->
   encode_loop_s fuel ms e s (skipn off p) = Ok (e', s') ->
-  ge_loop fuel copy ms (SExt p) p ge h g off = Some (ge', h', g') ->
+  ge_loop fuel copy ms inp p ge h g off = Some (ge', h', g') ->
   exists m', GS m' s' h' g' /\ ER m' e' ge' s'.
 Proof.
-  induction fuel as [|fuel IH]; intros m e ge s h g off e' s' ge' h' g' G R E1 E2; cbn [encode_loop_s ge_loop] in *.
+  induction fuel as [|fuel IH]; intros m e ge s h g off e' s' ge' h' g' G R IO E1 E2; cbn [encode_loop_s ge_loop] in *; unfold byte in *.
   - inversion E1; inversion E2; subst. eauto.
   - destruct (skipn off p) as [|b0 y0] eqn:Ey; [inversion E1; inversion E2; subst; eauto|]. rewrite <- Ey in *.
     destruct (consume_once_s ms e s (skipn off p)) as [[[e1 s1] c]|] eqn:C1; [|discriminate].
-    destruct (ge_consume_once copy ms (SExt p) p ge h g off) as [[[[ge1 h1] g1] c']|] eqn:C2; [|discriminate].
-    destruct (sim_consume_once m e ge s h g copy ms p off e1 s1 c ge1 h1 g1 c' G R C1 C2) as (<- & m1 & G1 & R1).
+    destruct (ge_consume_once copy ms inp p ge h g off) as [[[[ge1 h1] g1] c']|] eqn:C2; [|discriminate].
+    destruct (sim_consume_once m e ge s h g copy ms inp p off e1 s1 c ge1 h1 g1 c' G R IO C1 C2) as (<- & m1 & G1 & R1 & IO1).
     rewrite skipn_length in E1.
     destruct (negb (c <=? length p - off)); [discriminate|].
     assert (Hm : mid e = gmid ge) by (destruct R as (_ & _ & X & _); exact X).
@@ -244,17 +313,17 @@ Proof.
     rewrite <- Hm, <- Hm1 in E2.
     destruct (negb ((0 <? c) || negb (mid e1) && mid e)); [discriminate|].
     rewrite GeoMem.skipn_skipn' in E1.
-    exact (IH m1 e1 ge1 s1 h1 g1 (off + c) e' s' ge' h' g' G1 R1 E1 E2).
+    exact (IH m1 e1 ge1 s1 h1 g1 (off + c) e' s' ge' h' g' G1 R1 IO1 E1 E2).
 Qed.
 
-Lemma sim_piece copy ms p m e ge s h g e' s' ge' h' g' :
-  GS m s h g -> ER m e ge s ->
+Lemma sim_piece copy ms inp p m e ge s h g e' s' ge' h' g' :
+  GS m s h g -> ER m e ge s -> InpOK h g inp p 0 -> sl_bytes h inp = p ->
   encode_piece_s ms e s p = Ok (e', s') ->
-  ge_piece copy ms (SExt p) ge h g = Some (ge', h', g') ->
+  ge_piece copy ms inp ge h g = Some (ge', h', g') ->
   exists m', GS m' s' h' g' /\ ER m' e' ge' s'.
 Proof.
-  intros G R E1 E2. unfold encode_piece_s in E1. unfold ge_piece in E2. cbn [sl_bytes] in E2.
-  exact (sim_loop copy ms p _ m e ge s h g 0 e' s' ge' h' g' G R E1 E2).
+  intros G R IO Hp E1 E2. unfold encode_piece_s in E1. unfold ge_piece in E2. rewrite Hp in E2.
+  exact (sim_loop copy ms inp p _ m e ge s h g 0 e' s' ge' h' g' G R IO E1 E2).
 Qed.
 
 Lemma sim_terminate m e ge s h g s' h' g' : GS m s h g -> ER m e ge s ->
@@ -278,11 +347,59 @@ Proof.
   rewrite <- HC1 in E2. exact (sim_header m e1 ge1 s1 h1 g1 (cur e1) s' h' g' G1 R1 E1' E2).
 Qed.
 
+(* ---- anchored input: read_n into the iovec's own arena, encode the slice piecewise, queue its anchor ---- *)
+Lemma GS_set_cache_frame m s h g h1 k1 : GS m s h g -> heap_ok h1 -> cache_ok h1 k1 ->
+  (forall s0, sl_ok h s0 -> sl_bytes h1 s0 = sl_bytes h s0 /\ sl_ok h1 s0) -> GS m s h1 (set_cache k1 g).
+Proof.
+  intros (I & p & S & Rs & PI) Hh Hk F. destruct (frame_refines h h1 g p k1 I Rs Hh Hk F) as (I' & R').
+  split; [exact I'|]. exists p. auto.
+Qed.
+
+Lemma sim_read_n m s h g got count h1 k1 a : GS m s h g ->
+  as_read_n h (gcache_ g) got count = Some (h1, k1, a) ->
+  GS m s h1 (set_cache k1 g) /\
+  ((as_len a =? 0)%N = false -> InpOK h1 (set_cache k1 g) (as_sl a) got 0 /\ sl_bytes h1 (as_sl a) = got).
+Proof.
+  intros G E. unfold as_read_n in E.
+  destruct (arena_read_n h (gcache_ g) got count) as [[[[h2 k2] sl] an]|] eqn:EA; [|discriminate].
+  inversion E; subst h2 k2 a; clear E. cbn [as_sl as_len].
+  destruct (GS_good _ _ _ _ G) as (I & B).
+  destruct (N.eq_dec count 0) as [->|Hnz].
+  - unfold arena_read_n in EA. cbn in EA. inversion EA; subst h1 k1 sl an. split.
+    + apply (GS_set_cache_frame m s h g h (gcache_ g) G (gi_heap h g I) (gi_cache h g I)). auto.
+    + cbn. discriminate.
+  - assert (Hle : (nlen got <= count)%N).
+    { unfold arena_read_n in EA. destruct (count =? 0)%N eqn:E0; [apply N.eqb_eq in E0; lia|].
+      destruct (count <? nlen got)%N eqn:E1; [discriminate|]. apply N.ltb_ge in E1. exact E1. }
+    assert (Hcp : (0 < count)%N) by lia.
+    destruct (arena_read_n_spec _ _ _ _ _ _ _ _ (gi_cache h g I) (gi_heap h g I) Hcp Hle EA)
+      as (kk & -> & Hk' & Hh' & HL & F & Hb & Esl & Hbump & Hok & Hend & _).
+    split; [exact (GS_set_cache_frame m s h g h1 (Some kk) G Hh' Hk' F)|].
+    intros Hpos. split; [|exact Hb]. subst sl. cbn [sl_len] in Hpos. apply N.eqb_neq in Hpos.
+    assert (Hne : got <> []) by (intros ->; cbn in Hpos; lia).
+    specialize (Hok Hne). cbn [InpOK set_cache gslices]. split; [reflexivity|]. split.
+    + rewrite N.add_0_r, N.sub_0_r. cbn [skipn]. exact Hb.
+    + intros _. unfold rest. rewrite N.add_0_r, N.sub_0_r. cbn [sl_ok] in Hok. split; [exact Hok|].
+      intros s0 Hin. pose proof (gi_slices h g I) as Fs. rewrite Forall_forall in Fs. pose proof (Fs _ Hin) as O0.
+      destruct s0 as [c0 o0 l0|bs]; cbn [rdisj]; [|exact Logic.I]. intros Ec. right.
+      specialize (Hend (SArena c0 o0 l0) O0). cbn [sl_chunk sl_end] in Hend. apply Hend. now rewrite Ec.
+Qed.
+
+Lemma ER_same_nid m e ge s s' : nid s' = nid s -> ER m e ge s -> ER m e ge s'.
+Proof. intros H (A & B & C & D & E). unfold ER. rewrite H. auto. Qed.
+
+Lemma GS_push_anchor m s h g a : GS m s h g -> GS m s h (push_anchor a g).
+Proof.
+  intros (I & p & S & Rs & PI). destruct (push_anchor_refines h g p a I Rs) as (I' & R'). split; [exact I'|]. exists p. auto.
+Qed.
+
 (* ---- whole histories ---- *)
 From WP Require Import hcobs.EncSinkProofs.
 From WP Require iovec.Pipe iovec.PipeProofs.
 
-Definition simple (o : geop) : Prop := match o with GEBorrow _ | GECopy _ | GERd _ => True | _ => False end.
+(* a reader never delivers more than it was asked for (the contract of std::io::Read) *)
+Definition simple (o : geop) : Prop :=
+  match o with GEBorrow _ | GECopy _ | GERd _ => True | GERead got count => (nlen got <= count)%N | _ => False end.
 Definition gpieces (ops : list geop) : list (list byte) :=
   flat_map (fun o => match o with GEBorrow p | GECopy p => [p] | GERead got _ => [got] | _ => [] end) ops.
 
@@ -323,24 +440,56 @@ Proof.
     destruct (ge_step ms ge h g o) as [[[[ge1 h1] g1] ret]|] eqn:ES; [|discriminate].
     destruct (ge_run ms ge1 h1 g1 r) as [[[[ge2 h2] g2] out2]|] eqn:ER2; [|discriminate].
     inversion E; subst ge2 h2 g2 out; clear E.
-    assert (Hpiece : forall copy p, ge_piece copy ms (SExt p) ge h g = Some (ge1, h1, g1) ->
-      exists m1 e21 s1, GS m1 s1 h1 g1 /\ ER m1 e21 ge1 s1 /\ Sim mi ms e21 s1 (encode_piece ms est p) /\ taken s1 = taken s).
-    { intros copy p EP. destruct (encode_piece_sim mi ms Hmi Hms e2 s est x p S Rp) as (e21 & s1 & E1 & S1 & T1).
-      destruct (sim_piece copy ms p m e2 ge s h g e21 s1 ge1 h1 g1 G R E1 EP) as (m1 & G1 & R1).
+    assert (Hpiece : forall copy p ge0 h0 g0 inp gex hx gx m0, GS m0 s h0 g0 -> ER m0 e2 ge0 s -> InpOK h0 g0 inp p 0 -> sl_bytes h0 inp = p ->
+      ge_piece copy ms inp ge0 h0 g0 = Some (gex, hx, gx) ->
+      exists m1 e21 s1, GS m1 s1 hx gx /\ ER m1 e21 gex s1 /\ Sim mi ms e21 s1 (encode_piece ms est p) /\ taken s1 = taken s).
+    { intros copy p ge0 h0 g0 inp gex hx gx m0 G0 R0 IO0 Hb0 EP.
+      destruct (encode_piece_sim mi ms Hmi Hms e2 s est x p S Rp) as (e21 & s1 & E1 & S1 & T1).
+      destruct (sim_piece copy ms inp p m0 e2 ge0 s h0 g0 e21 s1 gex hx gx G0 R0 IO0 Hb0 E1 EP) as (m1 & G1 & R1).
       exists m1, e21, s1. auto. }
     destruct o as [p|p|got count|k|n]; cbn [simple] in Ho; try contradiction; cbn [ge_step] in ES.
     + destruct (ge_piece false ms (SExt p) ge h g) as [[[a b] c]|] eqn:EP; [|discriminate]. inversion ES; subst a b c ret; clear ES.
-      destruct (Hpiece false p EP) as (m1 & e21 & s1 & G1 & R1 & S1 & T1).
+      destruct (Hpiece false p ge h g (SExt p) ge1 h1 g1 m G R (InpOK_ext h g p 0) eq_refl EP) as (m1 & e21 & s1 & G1 & R1 & S1 & T1).
       pose proof (encode_piece_rep mi ms ltac:(lia) ltac:(lia) est x p Rp) as Rp1.
       destruct (IH m1 e21 ge1 s1 h1 g1 _ _ ge' h' g' out2 Hr G1 R1 S1 Rp1 ER2) as (m' & e2' & s' & est' & G' & R' & S' & Rp' & T').
       exists m', e2', s', est'. split; [exact G'|]. split; [exact R'|]. split; [exact S'|]. split; [|cbn [app]; congruence].
       cbn [gpieces flat_map concat app]. fold (gpieces r). rewrite app_assoc. exact Rp'.
     + destruct (ge_piece true ms (SExt p) ge h g) as [[[a b] c]|] eqn:EP; [|discriminate]. inversion ES; subst a b c ret; clear ES.
-      destruct (Hpiece true p EP) as (m1 & e21 & s1 & G1 & R1 & S1 & T1).
+      destruct (Hpiece true p ge h g (SExt p) ge1 h1 g1 m G R (InpOK_ext h g p 0) eq_refl EP) as (m1 & e21 & s1 & G1 & R1 & S1 & T1).
       pose proof (encode_piece_rep mi ms ltac:(lia) ltac:(lia) est x p Rp) as Rp1.
       destruct (IH m1 e21 ge1 s1 h1 g1 _ _ ge' h' g' out2 Hr G1 R1 S1 Rp1 ER2) as (m' & e2' & s' & est' & G' & R' & S' & Rp' & T').
       exists m', e2', s', est'. split; [exact G'|]. split; [exact R'|]. split; [exact S'|]. split; [|cbn [app]; congruence].
       cbn [gpieces flat_map concat app]. fold (gpieces r). rewrite app_assoc. exact Rp'.
+    + unfold ge_read in ES. destruct (as_read_n h (gcache_ g) got count) as [[[hr kr] a]|] eqn:EA; [|discriminate].
+      destruct (ge_anchored ms a ge hr (set_cache kr g)) as [[[ga ha] gga]|] eqn:EAn; [|discriminate].
+      inversion ES; subst ga ha gga ret; clear ES.
+      destruct (sim_read_n m s h g got count hr kr a G EA) as (Gr & Hpos).
+      pose proof (encode_piece_rep mi ms ltac:(lia) ltac:(lia) est x got Rp) as Rp1.
+      unfold ge_anchored in EAn. destruct (as_len a =? 0)%N eqn:E0.
+      * (* nothing was read: the call returns at once *)
+        inversion EAn; subst ge1 h1 g1; clear EAn.
+        assert (Hgot : got = []).
+        { unfold as_read_n in EA. destruct (arena_read_n h (gcache_ g) got count) as [[[[h2 k2] sl] an]|] eqn:EAr; [|discriminate].
+          inversion EA; subst hr kr a. unfold as_len in E0. cbn [as_sl] in E0. apply N.eqb_eq in E0.
+          destruct (GS_good _ _ _ _ G) as (I & B).
+          cbn [simple] in Ho.
+          destruct (N.eq_dec count 0) as [->|Hnz]; [apply nlen_zero; lia|].
+          assert (Hcp : (0 < count)%N) by lia.
+          destruct (arena_read_n_spec _ _ _ _ _ _ _ _ (gi_cache h g I) (gi_heap h g I) Hcp Ho EAr)
+            as (kk & _ & _ & _ & _ & _ & _ & Esl & _). subst sl. cbn [sl_len] in E0. now apply nlen_zero. }
+        subst got. rewrite app_nil_r in Rp1.
+        assert (Rp0 : Rep mi ms est (x ++ [])) by (rewrite app_nil_r; exact Rp).
+        destruct (IH m e2 ge s hr (set_cache kr g) est (x ++ []) ge' h' g' out2 Hr Gr R S Rp0 ER2) as (m' & e2' & s' & est' & G' & R' & S' & Rp' & T').
+        exists m', e2', s', est'. split; [exact G'|]. split; [exact R'|]. split; [exact S'|]. split; [|cbn [app]; exact T'].
+        cbn [gpieces flat_map concat app]. fold (gpieces r). rewrite app_nil_r in Rp'. exact Rp'.
+      * destruct (ge_piece false ms (as_sl a) ge hr (set_cache kr g)) as [[[gp hp] ggp]|] eqn:EP; [|discriminate].
+        inversion EAn; subst ge1 h1 g1; clear EAn.
+        destruct (Hpos eq_refl) as (IOr & Hbr).
+        destruct (Hpiece false got ge hr (set_cache kr g) (as_sl a) gp hp ggp m Gr R IOr Hbr EP) as (m1 & e21 & s1 & G1 & R1 & S1 & T1).
+        pose proof (GS_push_anchor m1 s1 hp ggp (as_anchor a) G1) as G1'.
+        destruct (IH m1 e21 gp s1 hp _ _ _ ge' h' g' out2 Hr G1' R1 S1 Rp1 ER2) as (m' & e2' & s' & est' & G' & R' & S' & Rp' & T').
+        exists m', e2', s', est'. split; [exact G'|]. split; [exact R'|]. split; [exact S'|]. split; [|cbn [app]; congruence].
+        cbn [gpieces flat_map concat app]. fold (gpieces r). rewrite app_assoc. exact Rp'.
     + destruct (read h n g) as [[g1' bs]|] eqn:ERd; [|discriminate]. inversion ES; subst ge1 h1 g1' ret; clear ES.
       destruct (geo_sink_read m s h g n g1 bs G ERd) as (ks & G1 & T1).
       assert (R1 : ER m e2 ge (fold_left s_drain ks s)).
